@@ -413,6 +413,9 @@ class Engine:
                 return dict(obligations=[], paths=0, unsupported=["fragment %s: %s" % (qualname, ex)], finfo=None,
                             complete_paths=0)
         if finfo is None:
+            # a function the contracts are written against no longer exists: the tree was restructured; obligations of
+            # its former callers that fail without a natively reproduced input are undecided, not violations
+            self.auto_fields.add("function under contract no longer exists: %s" % qualname)
             return dict(obligations=[], paths=0, unsupported=["function %s not found in source" % qualname],
                         finfo=None, complete_paths=0)
         c = self.contract_of(qualname)
